@@ -1,0 +1,14 @@
+//go:build verif
+
+package isaacdatabase
+
+// Exports for the verification harness (/verif, properties C24 and C38): the periodic clean-up steps of
+// TempPool.startClean and their configured depths.
+
+func (db *TempPool) VerifCleanBallots() (int, error) { return db.cleanBallots() }
+
+func (db *TempPool) VerifCleanProposals() (int, error) { return db.cleanProposals() }
+
+func (db *TempPool) VerifCleanDeeps() (proposal, ballot int) {
+	return db.cleanRemovedProposalDeep, db.cleanRemovedBallotDeep
+}
